@@ -611,9 +611,35 @@ func (e *Exec) load(p *Ptr) Value {
 	return r
 }
 
+// logGlobalWrite remembers the value(s) a store to package-level data is about to replace.
+func (e *Exec) logGlobalWrite(p *Ptr) {
+	e.globalWrites++
+	if p.Sym == nil {
+		slot := p.slot()
+		old := copyVal(*slot)
+		e.undo = append(e.undo, func() { *slot = old })
+		return
+	}
+	last := len(p.Path) - 1
+	parent := &Ptr{Obj: p.Obj, Path: p.Path[:last]}
+	arr := (*parent.slot()).(*ArrayV)
+	old := append([]Value(nil), arr.E...)
+	e.undo = append(e.undo, func() { copy(arr.E, old) })
+}
+
+// undoGlobalWrites restores package-level data at the end of a path.
+func (e *Exec) undoGlobalWrites() {
+	for i := len(e.undo) - 1; i >= 0; i-- {
+		e.undo[i]()
+	}
+	e.undo = nil
+}
+
 func (e *Exec) store(p *Ptr, v Value) {
 	if p.Obj.Frozen && !e.w.initializing {
-		panic(unsupported("write to package-level initialised data (" + p.Obj.Note + ")"))
+		// package-level data is shared by all paths of this worker: the write is logged and
+		// undone when the path ends
+		e.logGlobalWrite(p)
 	}
 	if e.race != nil {
 		e.raceAccess(ptrKey(p), true)
